@@ -13,7 +13,7 @@ import os, json
 import vcheck, conc_check
 
 HARNESS = os.path.join(vcheck.VERIF, "harness/C09/main.cpp")
-BOOST = ("-Wl,--no-as-needed", "-lboost_thread", "-lboost_system")
+BOOST = ["-lboost_thread", "-lboost_system"]     # cds::algo::flat_combining::kernel uses boost::thread_specific_ptr
 FAM_NAME = {0: "container::TreiberStack<HP>", 1: "container::TreiberStack<DHP>", 2: "intrusive::TreiberStack<HP>",
             3: "intrusive::TreiberStack<DHP>", 4: "container::FCStack<std::stack>"}
 LFUEL = 400
@@ -55,12 +55,19 @@ def gen_sched(rng, nthreads, kind):
         s += [a] * (1 + rng.below(10))
         s += [rng.below(nthreads) for _ in range(rng.below(40))]
         return s
-    # two threads in lock step (maximal CAS contention), then the rest
-    a = rng.below(nthreads); b = (a + 1 + rng.below(nthreads - 1)) % nthreads
+    if kind == 3:
+        # two threads in lock step (maximal CAS contention), then the rest
+        a = rng.below(nthreads); b = (a + 1 + rng.below(nthreads - 1)) % nthreads
+        s = []
+        for _ in range(10 + rng.below(40)):
+            s += [a, b]
+        return s + [rng.below(nthreads) for _ in range(rng.below(30))]
+    # all threads round-robin with a random phase shift now and then: every CAS is contended, the losers go to the
+    # elimination array together (a waiting record meets an operation of the opposite kind within its 3 polls)
     s = []
-    for _ in range(10 + rng.below(40)):
-        s += [a, b]
-    return s + [rng.below(nthreads) for _ in range(rng.below(30))]
+    for _ in range(4 + rng.below(10)):
+        s += list(range(nthreads)) * (1 + rng.below(6)) + [rng.below(nthreads)] * rng.below(3)
+    return s
 
 
 def gen_cfg(rng, fam, elim, nthreads):
@@ -71,7 +78,7 @@ def gen_cfg(rng, fam, elim, nthreads):
         L = 1 + rng.below(3)
         # small slot numbers so that operations meet; occasionally large values (index computation & / %)
         rnd = [(rng.below(n) if rng.chance(4, 5) else rng.below(1 << 16)) for _ in range(L * nthreads)]
-        if rng.chance(1, 3):
+        if rng.chance(1, 2):
             rnd = [rnd[0]] * len(rnd)       # everybody aims at one slot
     return [fam, LFUEL, 1 if elim else 0, n, dyn, L] + rnd
 
@@ -85,7 +92,7 @@ def gen_cases(ctx, n, fam, elim, prefix):
         if rng.chance(1, 2):
             # a pre-filled stack makes pops meet pops: thread 0 starts with pushes
             threads[0] = [[1, 100 + 50 + j] for j in range(1 + rng.below(2))] + threads[0][:2]
-        sched = gen_sched(rng, nthreads, rng.below(4))
+        sched = gen_sched(rng, nthreads, (3 + rng.below(2)) if (elim and rng.chance(1, 2)) else rng.below(5))
         cases.append({"id": "%s%d" % (prefix, i), "cfg": gen_cfg(rng, fam, elim, nthreads), "threads": threads, "sched": sched})
     return cases
 
@@ -200,6 +207,13 @@ def run_batch(ctx, lin, impl, cases, tag, model=None):
     ctx.log("batch %s: %d cases%s" % (tag, len(cases), " (step-compared)" if model is not None else ""))
     st = {"n": len(cases), "diverged": 0, "first_div": None, "monitor_hits": 0, "steps": 0, "shapes": set(), "nontrivial": set(),
           "verdicts": {}, "overrun": 0, "elim_hits": 0, "ops": {"push": 0, "pop_some": 0, "pop_none": 0}}
+    if rc2 != 0:
+        # the real code crashed (double free, assertion, ...) or hung: the case being run is a concrete failing input
+        culprit = next((c for c in cases if c["id"] not in ilog or ilog[c["id"]]["end"] is None), cases[-1])
+        st["monitor_hits"] += 1
+        part = ilog.get(culprit["id"], {"lines": []})["lines"]
+        ctx.violation("the real stack crashed or hung under the scheduler (harness exit status %d) on %s%s" % (rc2, FAM_NAME.get(culprit["cfg"][0], "?"), " + elimination" if culprit["cfg"][2] else ""),
+                      {"case": culprit, "impl_log": part, "history": history_of(part)[0], "harness_tail": raw[-600:]})
     hists = []; have = []
     for c in cases:
         i = ilog.get(c["id"])
@@ -251,7 +265,7 @@ def run(ctx):
     model_t = conc_check.build_model(ctx, "Extract_Treiber.v", tag="model_treiber")
     have_elim = os.path.exists(os.path.join(vcheck.COQ, "Extract", "Extract_Elim.v"))
     model_e = conc_check.build_model(ctx, "Extract_Elim.v", tag="model_elim") if have_elim else None
-    impl = vcheck.cxx_build(HARNESS, os.path.join(ctx.work, "harness"), hook=True, extra=BOOST)
+    impl = vcheck.cxx_build(HARNESS, os.path.join(ctx.work, "harness"), hook=True, libs=BOOST)
     lin = build_lincheck(ctx)
 
     if ctx.replay:
